@@ -13,7 +13,11 @@
    3. [spec_run]: a numeric name binds to the local label of that name in the same block and segment; an
       ordinary name binds to the definition in its own file instance if any, else to the definition in the
       instance that exported the name (first export stands), else is undefined; a definition inside a
-      '.repeat' body, a second definition of a name in the same scope, a second export of a name are errors. *)
+      '.repeat' body, a second definition of a name in the same scope, a second export of a name are errors.
+   Documented restriction: '.extern all' counts for the definitions that follow it only when it stands at file level
+   of the instance ([a_infile] in [xall_before]); inside a '.repeat' body it exports the definitions met so far and
+   nothing after the body (a.mac '.word q'; b.mac 'q = 7 / .repeat 1 { .extern all } / s = 5'; c.mac '.word s':
+   q is exported, s is not -> undefined-symbol).  Local labels of the enclosing scope are invisible inside a body. *)
 From Coq Require Import String Ascii List ZArith NArith Bool.
 From Verif Require Import Base.Res.
 Import ListNotations.
